@@ -299,7 +299,9 @@ func ruleSDigest(c *Ctx) {
 						if m[n] == nil {
 							m[n] = map[string]bool{}
 						}
-						m[n][funcName(fn)] = true
+						for _, af := range attributedTo(c.P, fn) {
+							m[n][funcName(af)] = true
+						}
 					}
 				}
 			}
@@ -365,9 +367,14 @@ func ruleSApply(c *Ctx) {
 					if fa, ok := s.Addr.(*ssa.FieldAddr); ok {
 						fname := fieldName(fa.X.Type(), fa.Field)
 						if fname == "PreviousTxSatoshis" || fname == "PreviousTxScript" {
-							n++
-							okSite := f.Name() == "apply" || (fname == "PreviousTxScript" && (f.Name() == "opcodeCheckSig" || f.Name() == "opcodeCheckMultiSig") &&
-								strings.Contains(atomName(newTermEnv().Term(s.Addr)), ".Clone("))
+							okSite := true
+							for _, af := range attributedTo(c.P, f) {
+								n++
+								if !(af.Name() == "apply" || (fname == "PreviousTxScript" && (af.Name() == "opcodeCheckSig" || af.Name() == "opcodeCheckMultiSig") &&
+									strings.Contains(atomName(newTermEnv().Term(s.Addr)), ".Clone("))) {
+									okSite = false
+								}
+							}
 							c.Check(okSite, "S-apply", "spent-output-store/"+funcName(f)+"/"+fname, s.Pos(), "written in apply (real tx) or on the digest clone", funcName(f)+" writes "+fname+" of an input")
 						}
 					}
